@@ -341,12 +341,44 @@ def propose (st : St Float) : Gen (Option (Op Float)) := do
         let i ← rnd nr; let j ← rnd nc
         return some (.get e i j)
       | none => return none
-  else if c < 97 then
+  else if c < 96 then
     -- writes through index() views of contiguous sources
     let e ← rndExpr st true
     if exprNoncontig st e then return none
     let v ← rndVal
     return some (.fill e v)
+  else if c < 98 then
+    -- input classes of the known findings (read-only, so the state never depends on them)
+    let r ← rnd 3
+    if r == 0 then
+      -- index() on the diagonal / a row of a column-ordered matrix (non-contiguous source)
+      let o ← rnd 4
+      let (nr, nc, _) := handleShape st o
+      if min nr nc < 2 then return none
+      if (← rndBool) then
+        let ix ← rndSubset (min nr nc); return some (.read ⟨o, [.v .diag, .idx ix]⟩)
+      else
+        let i ← rnd nr; let ix ← rndSubset nc; return some (.read ⟨o, [.v (.row i), .idx ix]⟩)
+    else if r == 1 then
+      -- a RowVector_ constructed with one element, grown, then indexed
+      let o ← rnd 2
+      let o := 6 + o
+      match st[o]? with
+      | some ob =>
+        if ob.isOwner && ob.born1 && ob.nc ≥ 2 then
+          let ix ← rndSubset ob.nc; return some (.read ⟨o, [.idx ix]⟩)
+        else if ob.isOwner && ob.born1 then
+          let n ← rnd 4; return some (.resize o 1 (n + 3) (← rndVal))
+        else return some (.new o 1 1 #[← rndVal])
+      | none => return none
+    else
+      -- (-~A) * (-B): negator<conjugate> × negator<complex> element products in the complex variant
+      let a ← rnd 4; let b ← rnd 4; let o ← rnd 4
+      let (anr, anc, _) := handleShape st a
+      let (bnr, bnc, _) := handleShape st b
+      if anr == 0 || anc == 0 || bnr < anr || bnc == 0 then return none
+      let i ← rnd (bnr - anr + 1); let n ← rnd bnc
+      return some (.mul o ⟨a, [.v .transpose, .v .negate]⟩ ⟨b, [.v .negate, .v (.block i 0 anr (n + 1))]⟩)
   else
     let o ← rnd 4
     let e ← rndExpr st false
